@@ -483,6 +483,9 @@ def r6_builder_siblings(repo: Repo, rep):
 
 
 def run(repo: Repo, rep):
+    from .generic import g_arg_constructor_parameters
+    g_arg_constructor_parameters(repo, rep, lambda m: ".models.deeponet" in m or ".functionsets" in m, floor=10,
+                                 why="a trunk net that does not pass `trunk_input_copied` on keeps the fast path for inputs that are not copies of one location set")
     r6_builder_siblings(repo, rep)
     r1_contraction(repo, rep)
     r2_reshape_agreement(repo, rep)
